@@ -15,15 +15,29 @@ const c02ArgsSDL = `type Query {
   wide(a: Int!, n: Int64!): String
   scale(f: Float!, g: Float64!): String
   say(s: String!, ok: Boolean!): String
+  opt(s: String, n: Int, ok: Boolean): String
+  mix(s: String!, n: Int, f: Float): String
+  size(unit: String!, n: Int): Int
 }`
 
 // reflection root: Go methods with the natural parameter types
-type c02ReflectArgs struct{}
+type c02ReflectArgs struct {
+	Size int32 // `size` is bound to this member: its arguments are still checked
+}
 
-func (*c02ReflectArgs) Add(a, b int32) string         { return fmt.Sprintf("add %d %d", a, b) }
-func (*c02ReflectArgs) Wide(a int, n int64) string    { return fmt.Sprintf("wide %d %d", a, n) }
+func (*c02ReflectArgs) Add(a, b int32) string             { return fmt.Sprintf("add %d %d", a, b) }
+func (*c02ReflectArgs) Wide(a int, n int64) string        { return fmt.Sprintf("wide %d %d", a, n) }
 func (*c02ReflectArgs) Scale(f float32, g float64) string { return fmt.Sprintf("scale %v %v", f, g) }
-func (*c02ReflectArgs) Say(s string, ok bool) string  { return fmt.Sprintf("say %q %v", s, ok) }
+func (*c02ReflectArgs) Say(s string, ok bool) string      { return fmt.Sprintf("say %q %v", s, ok) }
+
+// optional arguments: one that is left out (or null) is the zero value of the parameter, as it is the zero value
+// of the type assertion on the argument map
+func (*c02ReflectArgs) Opt(s string, n int32, ok bool) string {
+	return fmt.Sprintf("opt %q %d %v", s, n, ok)
+}
+func (*c02ReflectArgs) Mix(s string, n int32, f float32) string {
+	return fmt.Sprintf("mix %q %d %v", s, n, f)
+}
 
 // the schema object of the reflection root: its `query` field
 type c02ReflectSchema struct {
@@ -45,12 +59,24 @@ func (r *c02ResolverArgs) Resolve(f *ggql.Field, args map[string]interface{}) (i
 		return fmt.Sprintf("scale %v %v", args["f"], args["g"]), nil
 	case "say":
 		return fmt.Sprintf("say %q %v", args["s"], args["ok"]), nil
+	case "opt":
+		str, _ := args["s"].(string)
+		n, _ := args["n"].(int32)
+		ok, _ := args["ok"].(bool)
+		return fmt.Sprintf("opt %q %d %v", str, n, ok), nil
+	case "size":
+		return int32(3), nil
+	case "mix":
+		str, _ := args["s"].(string)
+		n, _ := args["n"].(int32)
+		f, _ := args["f"].(float32)
+		return fmt.Sprintf("mix %q %d %v", str, n, f), nil
 	}
 	return nil, fmt.Errorf("no field %s", f.Name)
 }
 
 func c02ArgsStream(o *Out, rng *Rng, n int) {
-	refl := ggql.NewRoot(&c02ReflectSchema{Query: &c02ReflectArgs{}})
+	refl := ggql.NewRoot(&c02ReflectSchema{Query: &c02ReflectArgs{Size: 3}})
 	res := ggql.NewRoot(&c02ResolverArgs{})
 	for _, r := range []*ggql.Root{refl, res} {
 		if err := r.ParseString(c02ArgsSDL); err != nil {
@@ -81,7 +107,13 @@ func c02ArgsStream(o *Out, rng *Rng, n int) {
 				return arg{name, typ, fmt.Sprintf("%d", int64(v)), v}
 			}
 			return arg{name, typ, fmtFloatLit(v), v}
-		case "String!":
+		case "Int":
+			v := Pick(rng, []int64{0, 1, -1, 7, 2147483647})
+			return arg{name, typ, fmt.Sprint(v), float64(v)}
+		case "Float":
+			v := Pick(rng, []float64{0, 1.5, -2.25})
+			return arg{name, typ, fmtFloatLit(v), v}
+		case "String!", "String":
 			v := Pick(rng, []string{"", "a", "two words", "é"})
 			return arg{name, typ, fmt.Sprintf("%q", v), v}
 		default:
@@ -97,17 +129,39 @@ func c02ArgsStream(o *Out, rng *Rng, n int) {
 		{"wide", [][2]string{{"a", "Int!"}, {"n", "Int64!"}}},
 		{"scale", [][2]string{{"f", "Float!"}, {"g", "Float64!"}}},
 		{"say", [][2]string{{"s", "String!"}, {"ok", "Boolean!"}}},
+		{"opt", [][2]string{{"s", "String"}, {"n", "Int"}, {"ok", "Boolean"}}},
+		{"mix", [][2]string{{"s", "String!"}, {"n", "Int"}, {"f", "Float"}}},
+		{"size", [][2]string{{"unit", "String!"}, {"n", "Int"}}},
 	}
 	for i := 0; i < n; i++ {
 		f := Pick(rng, fields)
 		vars := map[string]interface{}{}
 		vdefs, call := "", ""
-		for k, a := range f.args {
+		// arguments in any order; one may be left out or, when optional, be an explicit null
+		optionalAbsent := false
+		order := rng.Perm(len(f.args))
+		if rng.Chance(60) {
+			for k := range order {
+				order[k] = k
+			}
+		}
+		for _, k := range order {
+			a := f.args[k]
 			av := pickArg(a[0], a[1])
-			if k > 0 {
+			optional := a[1][len(a[1])-1] != '!'
+			if (optional && rng.Chance(30)) || (!optional && rng.Chance(6)) {
+				o.Count("args-argument-left-out optional=" + fmt.Sprint(optional))
+				optionalAbsent = optionalAbsent || optional
+				continue
+			}
+			if call != "" {
 				call += ", "
 			}
-			if rng.Bool() {
+			if optional && rng.Chance(15) {
+				o.Count("args-explicit-null")
+				optionalAbsent = true
+				call += av.name + ": null"
+			} else if rng.Bool() {
 				call += av.name + ": " + av.lit
 			} else {
 				vn := "v" + av.name
@@ -117,13 +171,16 @@ func c02ArgsStream(o *Out, rng *Rng, n int) {
 			}
 		}
 		doc := "{ " + f.name + "(" + call + ") }"
+		if call == "" {
+			doc = "{ " + f.name + " }"
+		}
 		if vdefs != "" {
 			doc = "query (" + vdefs + ") " + doc
 		}
 		a := canonResponse(safeResolve(res, doc, "", vars))
 		b := canonResponse(safeResolve(refl, doc, "", vars))
 		o.Count("args-field=" + f.name)
-		o.Emit(Case{Term: N("c02a", S(doc)), Obs: N("obs", B(a == b)),
+		o.Emit(Case{Term: N("c02a", S(doc), B(optionalAbsent)), Obs: N("obs", B(a == b)),
 			Meta: map[string]interface{}{"doc": doc, "vars": fmt.Sprintf("%#v", vars), "resolver": a, "reflection": b}, Nontrivial: true})
 	}
 }
